@@ -1,4 +1,4 @@
-import OrdModel.Num.Decimal
+import OrdModel.Num.Decimal_fixed
 import OrdModel.Text.SatPoint
 import OrdModel.Text.InscriptionId
 import OrdModel.Text.Sub
@@ -9,7 +9,8 @@ followed by the `FromStr` of the matched alternative:
 
   SAT_NAME → `Sat`; SATPOINT → `SatPoint`; INSCRIPTION_ID → `InscriptionId`;
   AMOUNT → `bitcoin::Amount` (**delegated to rust-bitcoin**: the model only says that this
-  alternative was taken); RUNE captures → `Decimal` then `SpacedRune`; otherwise `OutgoingParse`.
+  alternative was taken); RUNE captures → `Decimal` (the repaired parser, `Num/Decimal_fixed.lean`,
+  since `notes/fix-decimal.diff` was applied) then `SpacedRune`; otherwise `OutgoingParse`.
 -/
 namespace Ord.Text.Outgoing
 open Ord Ord.Text
@@ -34,7 +35,7 @@ def parse (s : List Char) : Outcome Val :=
   else if Regex.amount s then .ok .amountDelegated
   else match Regex.runeCaptures s with
     | some (num, name) =>
-      match Decimal.fromStr num with
+      match DecimalFixed.fromStr num with
       | .err e => .err ("rune-amount:" ++ e)
       | .panic p => .panic p
       | .ok d =>
